@@ -1,0 +1,14 @@
+//go:build verif
+
+package udp
+
+// Hook for the C08 correspondence harness: the error-queue twin of TimestampFromOOBData
+// (unexported; its only caller is ReadTXTimestamp). Add-only; compiled only with the build tag
+// "verif".
+
+import "time"
+
+// VerifC08TxTimestampFromOOBData runs timestampFromOOBData(oob).
+func VerifC08TxTimestampFromOOBData(oob []byte) (time.Time, uint32, error) {
+	return timestampFromOOBData(oob)
+}
